@@ -287,6 +287,9 @@ pub fn replay(path: &Path) -> i32 {
     if j.get("engine").and_then(|x| x.str()).map(|s| s.starts_with("E3")).unwrap_or(false) {
         return crate::e3::replay(&j, path);
     }
+    if j.get("engine").and_then(|x| x.str()).map(|s| s.starts_with("E4")).unwrap_or(false) {
+        return crate::e4::replay(&j, path);
+    }
     let Some(scj) = j.get("scenario") else {
         eprintln!("replay file has no scenario");
         return 2;
